@@ -44,7 +44,7 @@ Kids(rt) ==
 
 \* ------------------------------------------------------------------ validate
 JsTypeof(v) ==
-  CASE v.k = "undef" -> "undefined" [] v.k = "bool" -> "boolean" [] v.k = "num" -> "number" [] v.k = "str" -> "string"
+  CASE v.k \in {"undef", "hole"} -> "undefined" [] v.k = "bool" -> "boolean" [] v.k = "num" -> "number" [] v.k = "str" -> "string"
     [] v.k = "big" -> "bigint" [] v.k = "fn" -> "function" [] v.k = "sym" -> "symbol" [] OTHER -> "object"
 
 \* objects whose own / inherited properties the value codec does not keep apart, typed arrays with index keys
@@ -52,7 +52,7 @@ Murky(v) == (v.k = "obj" /\ v.c \in {"inh", "inhown"}) \/ (v.k = "ta" /\ v.es # 
 OwnProps(v) == IF v.k = "obj" THEN v.ps ELSE <<>>
 OwnKeys(v)  == {OwnProps(v)[i].key : i \in DOMAIN OwnProps(v)}
 OwnGet(v, key) == IF key \in OwnKeys(v) THEN OwnProps(v)[CHOOSE i \in DOMAIN OwnProps(v) : OwnProps(v)[i].key = key].v ELSE VUndef
-At(es, i) == IF i \in DOMAIN es THEN es[i] ELSE VUndef
+At(es, i) == IF i \in DOMAIN es THEN Deh(es[i]) ELSE VUndef
 
 RECURSIVE RtVal(_, _, _, _)
 RtVal(rt, v, s, named) ==
@@ -135,7 +135,7 @@ IsMergeable(v)   == ~IsPrimitive(v) /\ ~IsBuiltIn(v)
 RECURSIVE Clone(_), DeepMerge(_, _)
 Clone(v) ==
   IF ~IsMergeable(v) THEN v
-  ELSE IF v.k = "arr" THEN VArr([i \in DOMAIN v.es |-> Clone(v.es[i])])
+  ELSE IF v.k = "arr" THEN VArr([i \in DOMAIN v.es |-> Clone(Deh(v.es[i]))])          \* (an index loop: holes become undefined)
   ELSE IF Murky(v) THEN Unk
   ELSE VObj([i \in DOMAIN v.ps |-> P(v.ps[i].key, Clone(v.ps[i].v))])
 MergeObject(t, s) ==
@@ -150,7 +150,7 @@ DeepMerge(t, s) ==
   ELSE IF IsPrimitive(t) \/ IsBuiltIn(t) THEN Clone(s)
   ELSE IF s.k = "arr" /\ t.k = "arr"
        THEN LET n == IF Len(t.es) > Len(s.es) THEN Len(t.es) ELSE Len(s.es) IN
-            VArr([i \in 1..n |-> IF i <= Len(s.es) THEN DeepMerge(At(t.es, i), s.es[i]) ELSE Clone(t.es[i])])
+            VArr([i \in 1..n |-> IF i <= Len(s.es) THEN DeepMerge(At(t.es, i), Deh(s.es[i])) ELSE Clone(Deh(t.es[i]))])
   ELSE IF (s.k = "arr") # (t.k = "arr") THEN Clone(s)
   ELSE MergeObject(t, s)
 RECURSIVE DeepMergeFrom(_, _)
@@ -166,7 +166,7 @@ RtParse(rt, v, s, ord, named, R) ==
     [] rt.c = "tuple"  -> VArr([i \in DOMAIN rt.prefix |-> Sub(rt.prefix[i], At(v.es, i))]
                                \o (IF rt.rest = <<>> THEN <<>>
                                    ELSE [j \in 1..(IF Len(v.es) > Len(rt.prefix) THEN Len(v.es) - Len(rt.prefix) ELSE 0) |->
-                                          Sub(rt.rest[1], v.es[Len(rt.prefix) + j])]))
+                                          Sub(rt.rest[1], Deh(v.es[Len(rt.prefix) + j]))]))
     [] rt.c = "allOf"  -> IF IsPrimitive(v) THEN v
                           ELSE LET items == [i \in DOMAIN rt.ms |-> Sub(rt.ms[i], v)] IN
                                IF \E i \in DOMAIN items : items[i].k \notin {"unk", "thrown"} /\ JsTypeof(items[i]) # "object" THEN Thrown
@@ -177,7 +177,7 @@ RtParse(rt, v, s, ord, named, R) ==
                           ELSE LET hit == SelectSeq([i \in DOMAIN rt.ms |-> i], LAMBDA i : vs[i] = "T")
                                    items == [j \in DOMAIN hit |-> Sub(rt.ms[hit[j]], v)] IN
                                IF \E i \in DOMAIN items : items[i].k \in {"unk", "thrown"} THEN Unk ELSE DeepMergeAll(items)
-    [] rt.c = "array"  -> VArr([i \in DOMAIN v.es |-> Sub(rt.e, v.es[i])])
+    [] rt.c = "array"  -> VArr([i \in DOMAIN v.es |-> IF v.es[i].k = "hole" THEN VHole ELSE Sub(rt.e, v.es[i])])   \* (Array.prototype.map keeps holes)
     [] rt.c = "map"    -> VMap([i \in DOMAIN v.es |-> E(Sub(rt.kt, v.es[i].mk), Sub(rt.vt, v.es[i].mv))])
     [] rt.c = "set"    -> VSet([i \in DOMAIN v.es |-> Sub(rt.e, v.es[i])])
     [] rt.c = "opt"    -> IF IsNullish(v) THEN v ELSE Sub(rt.t, v)
